@@ -436,6 +436,9 @@ func c10Floor(shape string, run int, size func(proto.Message) int, target, maxK 
 	return k, pad, true
 }
 
+// c10Slack is the additive part of the memory bounds: one ordinary I/O buffer.
+const c10Slack = 64 << 10
+
 const (
 	c10Small = `{"name":"s"}`
 )
@@ -671,10 +674,10 @@ func c10Scenario(thorough bool) func(c *xplor.Ctx) {
 		c.AddEvaluations(1)
 
 		// (a) the memory bound, on the three seams
-		if st.maxPulled > 4*L+4096 {
+		if st.maxPulled > 4*L+c10Slack {
 			c.Fail("C10.inflated-beyond-limit", "%d bytes were pulled out of one decompressor under a limit of %d", st.maxPulled, L)
 		}
-		if pool.MaxCapSeen > 16*L+4096 {
+		if pool.MaxCapSeen > 16*L+c10Slack {
 			c.Fail("C10.buffer-beyond-limit", "a pooled message buffer of capacity %d was used under a limit of %d", pool.MaxCapSeen, L)
 		}
 		if st.unmarshalMax > L {
@@ -860,10 +863,10 @@ func c10Errors(c *xplor.Ctx) {
 	st := &acct.resp
 	c.Attr("~seams", fmt.Sprintf("error-encoding=%d on-the-wire=%d pulled=%d pool-cap=%d client=%d/%q status=%d complaints=%v", rawLen, bodyLen, st.maxPulled, pool.MaxCapSeen, pr.End.Code, short(pr.End.Message), ex.Rec.Status, pr.Complaints))
 	c.AddEvaluations(1)
-	if st.maxPulled > 4*L+4096 {
+	if st.maxPulled > 4*L+c10Slack {
 		c.Fail("C10.inflated-beyond-limit", "%d bytes were pulled out of one decompressor for the backend's error under a limit of %d", st.maxPulled, L)
 	}
-	if pool.MaxCapSeen > 16*L+4096 {
+	if pool.MaxCapSeen > 16*L+c10Slack {
 		c.Fail("C10.buffer-beyond-limit", "a pooled buffer of capacity %d was used for the backend's error under a limit of %d", pool.MaxCapSeen, L)
 	}
 	if pr.OK() {
@@ -897,7 +900,7 @@ func init() {
 		ID:    "C10",
 		Level: "fault_enumeration",
 		Rule: "Every combination of 19 adapter paths (re-frame, same-compression pass-through, decompress-only, re-compress, re-encode in both directions, buffer-to-measure with and without Content-Length, unary buffering, enveloped-to-flat, REST in and out, Connect GET) x direction (request / response) x limit L in {512, 2048} (+100 KiB thorough) x message shape (plain, 6x proto->JSON expansion, 3x JSON->proto expansion) x measured representation (wire, decompressed, re-encoded) x size (closest to L-1, L, L+1, 2L, 8L; 50L and 1000L as compression bombs / huge bodies) x compression (1:1 'rev', run-length 'rle' at ratio 0.5, 50:1, 1000:1) is sent through the real ServeHTTP. " +
-			"Seams the transcoder cannot avoid are instrumented: bytes pulled from a decompressor per message (<= 4L+4096), payload sizes handed to / produced by the codecs (decode input and compressor input <= L), capacity of pooled message buffers (<= 16L+4096). Oracle: bounds hold; a message whose decompressed / re-encoded / must-be-buffered flat representation exceeds L is never delivered; every failure is resource_exhausted and is justified by some representation > L (so messages whose every representation fits are never rejected).",
+			"Seams the transcoder cannot avoid are instrumented: bytes pulled from a decompressor per message (<= 4L+64 KiB), payload sizes handed to / produced by the codecs (decode input and compressor input <= L), capacity of pooled message buffers (<= 16L+64 KiB). Oracle: bounds hold; a message whose decompressed / re-encoded / must-be-buffered flat representation exceeds L is never delivered; every failure is resource_exhausted and is justified by some representation > L (so messages whose every representation fits are never rejected).",
 		Assume: []string{"sizes are those constructed by the harness and those observed at the codec / compressor seams (exact, no slack)", "the pooled-buffer bound is checked for buffers <= 8 MiB (larger ones are not recycled by bufferPool.Put and are covered by the decompressor seam)"},
 		Scenarios: []Scenario{
 			{Name: "limit", Fn: c10Scenario(false), QuickBound: 0, ThoroughBound: -1},
